@@ -44,7 +44,23 @@ def canon_slice(v):
     return v
 
 
+class OneShot:
+    """a one-shot iterable argument (a plain iterator over `items`).  How much of an iterator argument a call consumed is not part of
+    any property, so its canonical form is the list it was built from -- the model side keeps that list."""
+    def __init__(self, items):
+        self.items = list(items)
+        self._it = iter(self.items)
+
+    def __iter__(self):
+        return self
+
+    def __next__(self):
+        return next(self._it)
+
+
 def _canon_real(v):
+    if isinstance(v, OneShot):
+        return [_canon_real(x) for x in v.items]
     if isinstance(v, str) and v.startswith('/') and 'pyvc-files-' in v:
         return v.rsplit('/', 1)[1]         # a temp file standing for the model's file of the same name
     if isinstance(v, slice):
